@@ -194,6 +194,19 @@ func checkC09(c *core.Ctx) []core.Floor {
 		}
 	}
 	add("substitutions", sub)
+	// tokens of multi-byte text, 20-70 characters (40-210 bytes), in the places
+	// where the parser names the token it did not expect
+	{
+		var mb []string
+		for _, ch := range []string{"é", "日", "😀", "ж"} {
+			for n := 20; n <= 70; n++ {
+				tok := strings.Repeat(ch, n)
+				mb = append(mb, tok, tok+" x", "SHOW "+tok, "CREATE "+tok, "CREATE TABLE t (a "+tok+")", "SELECT * FROM t WHERE "+tok+" AND a = 1",
+					"SELECT * FROM t LIMIT '"+tok+"'", "SELECT * FROM t ORDER BY '"+tok+"'", "INSERT INTO t VALUES ("+tok+")", "USE '"+tok+"'", "SELECT "+tok+" "+tok+" "+tok)
+			}
+		}
+		add("multibyte_tokens_where_the_parser_names_them", mb)
+	}
 	// one long-lived process that keeps seeing names it has not seen before
 	// (tens of thousands of distinct words): whatever the front end remembers
 	// between statements must not wear out
@@ -358,7 +371,7 @@ func checkC09(c *core.Ctx) []core.Floor {
 	c.Sample(6, map[string]interface{}{"family": "prefixes", "example": pref[len(pref)/2]})
 	c.Sample(6, map[string]interface{}{"family": "mutations", "example": mut[len(mut)/2]})
 	fl := []core.Floor{{Key: "inputs", Min: 50000}}
-	for _, f := range []string{"token_sequences", "valid_statements", "prefixes", "mutations", "substitutions", "long_process", "clause_sequences", "quotes", "numerics", "buffer_boundary", "unicode_case", "encoding_edges", "random_bytes", "deep"} {
+	for _, f := range []string{"token_sequences", "valid_statements", "prefixes", "mutations", "substitutions", "long_process", "multibyte_tokens_where_the_parser_names_them", "clause_sequences", "quotes", "numerics", "buffer_boundary", "unicode_case", "encoding_edges", "random_bytes", "deep"} {
 		fl = append(fl, core.Floor{Key: "family_" + f, Min: 1})
 	}
 	fl = append(fl, core.Floor{Key: "outcome_statement", Min: 1000}, core.Floor{Key: "outcome_error", Min: 1000})
